@@ -104,6 +104,11 @@ func NewVerifyReader(r io.Reader, desc ocispec.Descriptor) *VerifyReader {
 			err: fmt.Errorf("failed to validate %s: %w", desc.Digest, err),
 		}
 	}
+	if desc.Size < 0 {
+		return &VerifyReader{
+			err: ErrInvalidDescriptorSize,
+		}
+	}
 	verifier := desc.Digest.Verifier()
 	lr := &io.LimitedReader{
 		R: io.TeeReader(r, verifier),
